@@ -1305,7 +1305,12 @@ pub fn explore(ctx: &Ctx, which: Which) -> Outcome {
         if which == Which::C13 && (cfg.name.contains("siblings") || cfg.name.contains("other languages only") || cfg.name.contains("a+d/a, symlinked files")) {
             continue;
         }
-        let depth = cfg.depth;
+        let mut depth = cfg.depth;
+        // C13 at the quick tier: the listing observers run once per distinct state and dominate the
+        // cost; the single-file / empty-directory lower layers get one level less there
+        if which == Which::C13 && ctx.tier == Tier::Quick && depth >= 3 && cfg.lowers.len() == 2 && (cfg.name.ends_with(", a]") || cfg.name.ends_with(", d/]") || cfg.name.ends_with(", a/]")) {
+            depth -= 1;
+        }
         let sys = Sys { cfg, which, base: base.join(format!("c{}", ci)) };
         let c14_scale = which == Which::C14 && sys.cfg.name.contains("a+d/a") && [(Loc::FE10, Lang::German), (Loc::FE14, Lang::EnglishNA), (Loc::FE15, Lang::Japanese), (Loc::FE13, Lang::EnglishEU)].contains(&(sys.cfg.loc, sys.cfg.lang));
         if (which == Which::C12 && sys.cfg.lowers.len() == 1) || c14_scale {
